@@ -60,6 +60,34 @@ def handle (inp out : String) : String :=
         else if (words ms).headD "?" == st && st != "X0" then s!"ok x:{label}:{st}"
         else s!"diff x:{label}:{st} model={ms.take 60}"
     | _, _, _, _ => "skip bad-args"
+  | "xs" :: sigHex :: ver :: keyHex :: replyHex :: _pf :: _anchors :: _cons :: trusted :: pubHex :: to :: rest =>
+    let label := rest.headD "-"
+    let ows := words out
+    let st := ows.headD "?"
+    match ofHex sigHex, ofHex keyHex, ofHex replyHex, ver.toNat? with
+    | some src, some key, some reply, some v =>
+      let pub : Option Tlv := if pubHex == "-" then none else match ofHex pubHex with
+        | some pb => (parseBlob pb).toOption
+        | none => none
+      let viol : Option String :=
+        if st.startsWith "X" && !ows.contains "S1" then some "source-signature-changed"
+        else if label != "ok" && st == "X0" then some s!"extended-although-{label}"
+        else if label == "ok" && st != "X0" then some s!"honest-case-refused-{st}"
+        else if ows.contains "RESULT-WITH-ERROR" then some "a-result-was-returned-together-with-an-error"
+        else resultSpec src pub ows
+      match viol with
+      | some why => s!"specfail xs:{label} {why}"
+      | none =>
+        if trusted != "trusted=1" || pub.isNone then
+          (if st == "X0" then s!"diff xs:{label}:{st} model=refused" else s!"ok xs:{label}:{st}")
+        else
+          let ms := match extendTo Hreal cfg src to.toNat? pub 1 v none key reply with
+            | .ok o => s!"X0 R{toHex o} D1 T1 S1"
+            | .error e => s!"X{e} S1"
+          if ms == out then s!"ok xs:{label}:{st}"
+          else if (words ms).headD "?" == st && st != "X0" then s!"ok xs:{label}:{st}"
+          else s!"diff xs:{label}:{st} model={ms.take 60}"
+    | _, _, _, _ => "skip bad-args"
   | "compat" :: a :: b :: rest =>
     let label := rest.headD "-"
     match ofHex a, ofHex b with
